@@ -1,5 +1,5 @@
 """C18  Printed durations, sizes and throughputs are truthful truncations."""
-from lib.facts import norm, direct_place, const_int, origins, place_fields
+from lib.facts import norm, direct_place, const_int, origins, place_fields, nophi
 from lib import tables
 from .C15 import const_str
 
@@ -299,6 +299,26 @@ def r18_2(ctx, prog, crate):
               and s["rv"]["o"]["c"]["ty"] == "f64"]
         ctx.check(len(zs) == 1 and zs[0]["rv"]["o"]["c"]["d"] in ("0f64", "0.0f64", "0E+0f64"), "R18.2", ["DisplayThroughput", "zero-count-prints-zero"],
                   "a zero count yields %s" % [z["rv"]["o"]["c"]["d"] for z in zs], b.where(t["otherwise"]))
+    # the prefix base that scales the VALUE is the base of the table that supplies the SUFFIX: scale_value gets
+    # format.bytes_format() of the very ScaleFormat handed to Scale::suffix (binary only for byte units), never the global setting
+    sv_ = [c for c in b.live_calls() if c.callee == "util::fmt::scale_value"]
+    sf_ = [c for c in b.live_calls() if c.callee == "util::fmt::Scale::suffix"]
+    if ctx.check(len(sv_) == 1 and len(sf_) == 1, "R18.2", ["DisplayThroughput", "one-scale-one-suffix"], "scale_value x%d Scale::suffix x%d" % (len(sv_), len(sf_)), b.where(0)):
+        og = origins(b, sv_[0].args[1])
+        via = [o[1] for o in og if o[0] == "call" and o[1].callee == "util::fmt::ScaleFormat::bytes_format"]
+        ok = len(og) == 1 and len(via) == 1
+        if ok:
+            from lib.symexpr import Sym
+            S_ = Sym(b)
+            ok = S_.op(via[0].args[0]) == S_.op(sf_[0].args[1])
+        ctx.check(ok, "R18.2", ["DisplayThroughput", "value-scaled-with-the-suffix-tables-base"],
+                  "scale_value's prefix base comes from %s, expected <format>.bytes_format() of the format given to Scale::suffix (a decimal-labelled unit must not be scaled by 1024^k)"
+                  % [o[1].callee if o[0] == "call" else (o[0], o[2] if len(o) > 2 else "") for o in og], sv_[0].line())
+        # and the scale whose suffix is printed is the scale scale_value chose
+        from lib.symexpr import Sym as _Sym
+        e_ = _Sym(b).op(sf_[0].args[0])
+        ctx.check(e_[0] == "field" and e_[2] == (1,) and e_[1][0] == "site" and e_[1][2] == sv_[0].bb, "R18.2", ["DisplayThroughput", "suffix-of-the-chosen-scale"],
+                  "Scale::suffix is not applied to the scale that scale_value returned", sf_[0].line())
     # kind <-> ScaleFormat pairing
     kn = tables.variant_names(prog, "counter::any_counter::KnownCounterKind", crate)
     pair = {}
